@@ -28,6 +28,8 @@ type Program struct {
 	LoadErrs  []string
 	// globals stored to outside package init
 	MutableGlobals map[*ssa.Global]bool
+	// constant initial values of package-level variables (from the package initialiser)
+	GlobalInit map[*ssa.Global]*ssa.Const
 }
 
 // UFun is an uninterpreted ghost function declared in a spec file.
@@ -86,7 +88,7 @@ func Load(repoDir string, patterns []string) (*Program, error) {
 	if err != nil {
 		return nil, err
 	}
-	p := &Program{RepoDir: repoDir, Pkgs: pkgs, Funcs: map[string]*ssa.Function{}, Contracts: map[string]*Contract{}, UFuns: map[string]*UFun{}, Defines: map[string]*Define{}, MutableGlobals: map[*ssa.Global]bool{}}
+	p := &Program{RepoDir: repoDir, Pkgs: pkgs, Funcs: map[string]*ssa.Function{}, Contracts: map[string]*Contract{}, UFuns: map[string]*UFun{}, Defines: map[string]*Define{}, MutableGlobals: map[*ssa.Global]bool{}, GlobalInit: map[*ssa.Global]*ssa.Const{}}
 	for _, pk := range pkgs {
 		for _, e := range pk.Errors {
 			p.LoadErrs = append(p.LoadErrs, e.Error())
@@ -112,6 +114,20 @@ func Load(repoDir string, patterns []string) (*Program, error) {
 		}
 		p.Funcs[FuncKey(f)] = f
 		if f.Name() == "init" && f.Parent() == nil {
+			for _, b := range f.Blocks {
+				for _, in := range b.Instrs {
+					if st, ok := in.(*ssa.Store); ok {
+						if g, ok := st.Addr.(*ssa.Global); ok {
+							if c, ok := st.Val.(*ssa.Const); ok {
+								if _, dup := p.GlobalInit[g]; dup {
+									p.MutableGlobals[g] = true
+								}
+								p.GlobalInit[g] = c
+							}
+						}
+					}
+				}
+			}
 			continue
 		}
 		for _, b := range f.Blocks {
